@@ -318,13 +318,26 @@ impl Check for NormCheck {
             // the replacement text comes from a note of the same directory, so its relative links mean the same
             let k2 = keys.iter().cycle().skip((case as usize + 1) % keys.len()).take(keys.len()).find(|c| ***c != k && mdscan::key_dir(c) == mdscan::key_dir(&k)).map(|c| (*c).clone()).unwrap_or_else(|| k.clone());
             let new_text = lib.texts[&k2].clone();
+            // an untouched note of the library, formatted after the edit of `k`
+            let bystander = keys.iter().find(|c| ***c != k && ***c != k2).map(|c| (*c).clone());
             let r = mon::catch(|| {
                 let mut db = Database::new(to_state(&lib.texts), false, MarkdownOptions::default());
                 db.update_document(k.as_str().into(), new_text.clone());
-                db.graph().to_markdown(&k.as_str().into())
+                let by = bystander.as_ref().map(|b| db.graph().to_markdown(&b.as_str().into()));
+                (db.graph().to_markdown(&k.as_str().into()), by)
             });
             match r {
-                Ok(got) => {
+                Ok((got, by)) => {
+                    if let (Some(b), Some(by_text)) = (&bystander, by) {
+                        let mut texts2 = lib.texts.clone();
+                        texts2.insert(k.clone(), new_text.clone());
+                        let view2 = LibView::new(&texts2);
+                        let cmp = oracle::compare_norm(&view2.scans[b], &mdscan::scan(&by_text), &mdscan::key_dir(b), &view2);
+                        rep.count("bystander_formats", 1);
+                        for df in cmp.c01.iter().take(2) {
+                            rep.violate(df.clause, "bystander-after-edit", format!("note {} (untouched) formatted after an edit of {}: {}", b, k, df.detail), json!({"case": case, "edited": k, "new": new_text, "bystander": b, "bystander_text": lib.texts[b], "formatted": by_text}));
+                        }
+                    }
                     let mut texts2 = lib.texts.clone();
                     texts2.insert(k.clone(), new_text.clone());
                     let view2 = LibView::new(&texts2);
